@@ -278,8 +278,13 @@ static void run_and_check(int tid, OrcProgram *p, OrcCode *code, const ProgMeta 
     // single-threaded process reproduces bit for bit is a pure function of the
     // program (C01's subject), not an effect of concurrency
     uint64_t ph = 0;
-    if (pristine_native_hash(meta.spec, "default", 0xffffffffUL, a.n, ds, ph) && ph == hash_outputs(meta, a)) {
+    int pst = pristine_native_hash(meta.spec, "default", 0xffffffffUL, a.n, ds, ph);
+    if (pst == 2 || (pst == 1 && ph == hash_outputs(meta, a))) {
       g_ctx->c->count("probe.native_vs_emulation_defect_confirmed_in_pristine_process");
+      d.clear();
+    } else if (pst < 0) {
+      g_ctx->c->count("probe.pristine_helper_unavailable");
+      g_ctx->c->note("pristine helper unavailable: " + g_pristine_diag);
       d.clear();
     }
   }
